@@ -96,6 +96,48 @@ def gen_case(draw):
     feat0 = draw(st.sampled_from(FEATS))
     return {'api': api, 'feat': feat0, 'docs': [base64.b64encode(d).decode() for d in docs], 'ops': ops}
 
+# ---- lane T: cached / preloaded grammars are transparent (tparse: history parser with its cache vs fresh parser reading the grammar inline) ----
+INTSUBS = ['', '', '<!ENTITY e2 "int">', '<!ATTLIST a extra CDATA "dflt">', '<!ATTLIST r code CDATA #REQUIRED>', '<!ENTITY e "internal-wins">', '<!ATTLIST a k CDATA "from-internal">']
+TBODIES = BODIES + ['<r><a id="x1">&e2;</a></r>', '<r code="c"><a id="x1" extra="given">t</a></r>', '<r><a id="x9"/></r>']
+FEATS_T = ['ns=1;val=1;usecached=1;ignorecacheddtd=1;scanner=IG', 'ns=1;val=1;usecached=1;ignorecacheddtd=1;scanner=DG', 'ns=0;val=1;usecached=1;ignorecacheddtd=1;scanner=DG',
+           'ns=1;val=1;schema=1;usecached=1;ignorecacheddtd=1;scanner=IG', 'ns=1;val=1;schema=1;usecached=1;scanner=SG', 'ns=1;val=2;schema=1;usecached=1;ignorecacheddtd=1;scanner=IG',
+           'ns=1;val=0;usecached=1;ignorecacheddtd=1;scanner=IG', 'ns=1;val=1;schema=1;fullcheck=1;usecached=1;ignorecacheddtd=1;scanner=IG', 'ns=1;val=1;ignorecacheddtd=1;scanner=IG']
+FEATS_T_CACHE = ['ns=1;val=1;cachegrammar=1;usecached=1;ignorecacheddtd=1;scanner=IG', 'ns=1;val=1;cachegrammar=1;usecached=1;ignorecacheddtd=1;scanner=DG',
+                 'ns=1;val=1;schema=1;cachegrammar=1;usecached=1;ignorecacheddtd=1;scanner=IG', 'ns=1;val=1;schema=1;cachegrammar=1;usecached=1;scanner=SG']
+
+@st.composite
+def gen_tcase(draw):
+    """ONE grammar in the whole case, and every document references it: the cache can never legitimately disagree with the inline grammar, and a cached
+    grammar the document does not mention (documented: it is then used for that namespace) does not occur.  With cacheGrammarFromParse the documented
+    restrictions apply: no internal subset (Val_CantHaveIntSS) and no loadGrammar of a grammar that is already cached."""
+    api = draw(st.sampled_from(['sax1', 'sax2', 'dom', 'domls']))
+    fam = draw(st.sampled_from(['dtd', 'dtd', 'nons', 'ns']))
+    di = draw(st.integers(0, len(DTDS) - 1)); xn = draw(st.integers(0, 1)); xt = draw(st.integers(2, 3))
+    fromparse = draw(st.integers(0, 2)) == 0
+    docs = []
+    for _ in range(draw(st.integers(3, 6))):
+        head = draw(st.sampled_from(['', '', '<?xml version="1.0"?>', '<?xml version="1.1"?>']))
+        if fam == 'dtd':
+            if fromparse or draw(st.booleans()): text = head + '<!DOCTYPE r SYSTEM "dtd%d.dtd">' % di + draw(st.sampled_from(TBODIES))
+            else: text = head + '<!DOCTYPE r SYSTEM "dtd%d.dtd" [%s]>' % (di, draw(st.sampled_from(INTSUBS[2:]))) + draw(st.sampled_from(TBODIES))
+        elif fam == 'nons': text = head + draw(st.sampled_from(SBODIES)) % (XSI + ' xsi:noNamespaceSchemaLocation="xsd%d.xsd"' % xn)
+        else: text = head + draw(st.sampled_from(SBODIES)) % ('xmlns="urn:t" ' + XSI + ' xsi:schemaLocation="urn:t xsd%d.xsd"' % xt)
+        docs.append(text.encode('utf-8'))
+    want_schema = fam != 'dtd'
+    feats = [f for f in (FEATS_T_CACHE if fromparse else FEATS_T) if ('schema=1' in f) == want_schema or (fam == 'dtd' and 'scanner=SG' not in f)]
+    g = di if fam == 'dtd' else len(DTDS) + (xn if fam == 'nons' else xt)
+    ops = []
+    for i in range(draw(st.integers(4, 14))):
+        k = draw(st.sampled_from(['tparse'] * 6 + ['feat', 'feat', 'resetgrammarpool', 'resetdocpool'] + ([] if fromparse else ['loadgrammar'] * 3 + ['pparse', 'throw'])))
+        d = draw(st.integers(0, len(docs) - 1))
+        if k == 'tparse': ops.append('tparse %d' % d)
+        elif k == 'pparse': ops.append(('pparse %d %d' % (d, draw(st.integers(0, 7)))) if api != 'domls' else 'tparse %d' % d)
+        elif k == 'throw': ops.append(('throw %d %d' % (d, draw(st.integers(1, 9)))) if api in ('sax1', 'sax2') else 'tparse %d' % d)
+        elif k == 'feat': ops.append('feat ' + draw(st.sampled_from(feats)))
+        elif k == 'loadgrammar': ops.append('loadgrammar %d %s 1' % (g, 'dtd' if g < len(DTDS) else 'xsd'))
+        else: ops.append(k)
+    return {'lane': 'T', 'api': api, 'feat': draw(st.sampled_from(feats)), 'docs': [base64.b64encode(d).decode() for d in docs], 'ops': ops}
+
 def run_case(case, ex):
     req = {'kind': 'session', 'api': case['api'], 'feat': case['feat'], 'n': str(len(case['ops']))}
     for i, d in enumerate(case['docs']): req['doc%d' % i] = base64.b64decode(d)
@@ -108,6 +150,8 @@ def run_case(case, ex):
     lines = resp.split('\n')
     ops = [l.split('\t') for l in lines if l.startswith(('OP\t', 'ADOPTED\t'))]
     bad = [o for o in ops if 'DIFF' in o[2:4] or 'BADOP' in o]
+    if bad and bad[0][2] == 'tparse':
+        i = resp.find('<<<'); return False, 'a cached / preloaded grammar is not transparent: %r\n%s' % (bad[:3], resp[i:i + 3000]), ops
     if bad:
         i = resp.find('<<<'); return False, 'result depends on the history: %r\n%s' % (bad[:3], resp[i:i + 3000]), ops
     return True, 'ok', ops
@@ -126,6 +170,19 @@ def worker(ctx):
         S.sample({'api': case['api'], 'feat': case['feat'], 'ops': case['ops'][:8]})
         if not ok: raise PropertyFailure(case, detail)
     hyp_run(ctx, gen_case(), prop, ctx.budget)
+    def propT(case):
+        ok, detail, ops = run_case(case, ex)
+        tp = [o for o in ops if o[0] == 'OP' and o[2] == 'tparse']
+        cached = [o for o in tp if 'cached' in o]
+        nt = bool(cached)
+        labels = ['laneT', 'api:' + case['api']] + ['op:' + o.split(' ')[0] for o in case['ops']]
+        if any('cachegrammar=1' in o for o in case['ops'] + [case['feat']]): labels.append('T:cache-from-parse')
+        if any(b'[<!' in base64.b64decode(d) for d in case['docs']): labels.append('T:internal-subset-doc')
+        S.note(xv.sha(case), nt, labels)
+        S.labels['transparency_compared_parses'] += len(tp); S.labels['transparency_compared_with_cache'] += len(cached)
+        S.sample({'lane': 'T', 'api': case['api'], 'feat': case['feat'], 'ops': case['ops'][:8]}, limit=3)
+        if not ok: raise PropertyFailure(case, detail)
+    hyp_run(ctx, gen_tcase(), propT, max(20, ctx.budget // 3), batches=2, seed_salt=11)
 
 def replay(case, ctx):
     ok, detail, ops = run_case(case, ctx.executor('xvexec'))
